@@ -239,7 +239,8 @@ def run_property(pid, tier="quick", seed=0, verbose=True, only_unit=None):
     t0 = time.time()
     units = units_for(pid, registry)
     if only_unit:
-        units = [u for u in units if only_unit in f"{u[0]}@{u[1]}"]
+        import re
+        units = [u for u in units if only_unit in f"{u[0]}@{u[1]}" or re.search(only_unit, f"{u[0]}@{u[1]}")]
     pool = solve.get_pool()
     unit_results = list(pool.imap_unordered(exec_unit, [(k, l, pid) for k, l in units], chunksize=1))
     unit_results.sort(key=lambda u: (u["key"], u["label"]))
